@@ -4,8 +4,10 @@ import (
 	"fmt"
 	"go/types"
 	"math/big"
+	"os"
 	"sort"
 	"strings"
+	"time"
 
 	"golang.org/x/tools/go/ssa"
 
@@ -79,6 +81,8 @@ func DeclareStageBRules(run *report.Run, rulePrefix string, cfgIDs []string) {
 	}
 	NewRules(run, rulePrefix, StageBClasses, min)
 }
+
+var traceStageB = os.Getenv("VOI_ERANGE_TRACE") != ""
 
 type primSummary struct {
 	out       map[int]Value // written pointer parameters -> final pointee
@@ -155,29 +159,24 @@ func CheckFieldStageB(run *report.Run, p *load.Program, rulePrefix string) {
 	}
 	sb.a = a
 
-	// initial contents of the package-level variables of the scope feed the summaries
 	var scopeNames []string
+	var inits []*ssa.Function
 	for _, pk := range p.Pkgs {
 		if !sb.scope[pk.Types] {
 			continue
 		}
 		scopeNames = append(scopeNames, load.Rel(pk.Types))
-		sp := p.SSAPkg(load.Rel(pk.Types))
-		if sp == nil {
-			continue
-		}
-		a.ensureInit(sp)
-		for _, m := range sp.Members {
-			if g, ok := m.(*ssa.Global); ok {
-				if v, ok := a.GlobalValue(g); ok {
-					a.heap.absorb(g.Type().(*types.Pointer).Elem(), "", v)
-				}
+		if sp := p.SSAPkg(load.Rel(pk.Types)); sp != nil {
+			// package-level variables are by-type memory: the package
+			// initialiser is analysed like an exported entry point
+			if f := sp.Func("init"); f != nil && len(f.Blocks) > 0 {
+				inits = append(inits, f)
 			}
 		}
 	}
 	sort.Strings(scopeNames)
 
-	var roots []*ssa.Function
+	roots := append([]*ssa.Function(nil), inits...)
 	for _, fn := range p.ModuleFuncs() {
 		if fn.Pkg == nil || !sb.scope[fn.Pkg.Pkg] || len(fn.Blocks) == 0 || fn.Parent() != nil || fn.Synthetic != "" {
 			continue
@@ -263,15 +262,18 @@ func (sb *stageB) analyzeEntry(fn *ssa.Function, record bool) (undecided []strin
 	a := sb.a
 	label := load.FuncName(fn)
 	a.resetEntry(label, record)
+	if traceStageB {
+		t0 := time.Now()
+		defer func() {
+			fmt.Fprintf(os.Stderr, "stageB %-70s steps=%-9d paths=%-6d %v\n", label, a.steps, a.paths, time.Since(t0).Round(time.Millisecond))
+		}()
+	}
 	defer func() {
 		if e := recover(); e != nil {
 			a.undecide(nil, "analysis of %s panicked: %v", label, e)
 		}
 		undecided = a.undecided
 	}()
-	if fn.Pkg != nil {
-		a.ensureInit(fn.Pkg)
-	}
 	var ptrParams []int
 	elem := map[int]types.Type{}
 	for i, prm := range fn.Params {
